@@ -188,3 +188,19 @@ theorem sem_shapeAtom (e : Env) (g : Gene) : ∀ a : Atom, sem e g (shapeAtom a)
 end
 
 end ASV.Parser
+
+namespace ASV.Parser
+open ASV ASV.Rules ASV.Grammar
+
+/-- `parse_pp` (restated in Props/C02) -/
+theorem parse_pp_aux (t : OrE) (ht : okTop t = true) (fuel : Nat) (k consumed : List Tok) (rules : List Rule)
+    (hk : NotBinop k) (hend : ∀ c r, endCheck false (ofStream k c r) = .ok ())
+    (hf : 3 * (ppOr t).length + 2 ≤ fuel) :
+    parseConditions fuel true false (ofStream (ppOr t ++ k) consumed rules) =
+      .ok (shapeOr t, ofStream k ((ppOr t).reverse ++ consumed) rules) := by
+  simp only [okTop, Bool.and_eq_true] at ht
+  have g := okOr_goods false t ht.1.1 ht.1.2
+  exact parseConditions_complete true false (shapeOr t) fuel (ppOr t) k consumed rules (shapeOr_ne_nil t)
+    g.shape g.norep (ppOr_keys t) hk hend hf
+
+end ASV.Parser
